@@ -678,6 +678,7 @@ def _touch(s, save=True):
     s.sparsity
     s.to_dict(force=True)
     list(s.items(force=True))
+    s == s.copy()
     for hc in cells_of(s.shape[1:]):
         s.common_rowids(*hc)
     from catii.ccubes import ccube
@@ -742,6 +743,12 @@ def _reobserve(s, exp, opd, ctx, opname, old_cube=None, save=True):
             back = type(s)(ents, cm, shape)
             if M.read_dense(back).tolist() != exp.tolist():
                 ctx.v(P, opname + ":stale:indx-save", opd, "saving the changed index and loading it back gives %r, expected %r" % (M.read_dense(back).tolist(), exp.tolist()))
+    try:
+        twin = M.build_index(exp, int(s.common))
+        if not (s == twin) or (s != twin) or not (twin == s):
+            ctx.v(P, opname + ":stale:equality", opd, "after the change the index does not compare equal to an index built from its new content (== %r, != %r, reversed == %r)" % (s == twin, s != twin, twin == s))
+    except Exception as e:  # noqa
+        ctx.v(P, opname + ":stale:equality", opd, "comparing the changed index raised %r" % (e,))
     if set(s.abscissae) != present:
         ctx.v(P, opname + ":stale:abscissae", opd, "abscissae after the change %r, values present %r" % (sorted(s.abscissae), sorted(present)))
     if exp.size and abs(s.sparsity - 100.0 * int((exp == s.common).sum()) / exp.size) > 1e-9:
